@@ -173,6 +173,57 @@ def gen_async(pid, macro, profile, gates, seed, idx, heavy):
                    role=dict(kind=macro, carrier="res"))
 
 
+def gen_recover(pid, macro, shape, carrier):
+    """a failure stays a failure: a branch fails in a step in which it is the ONLY active branch (and which is not the last step); its next
+    step acts on the error side (`~<=` / `~<|` would recover, `~->` sees the raw value).  The macro still returns that failure, unchanged, and the
+    later step never runs.  shape 'two': branch 0 has three steps, branch 1 one; shape 'one': a single three-step branch"""
+    is_async, is_try, is_spawn = KINDS[macro]
+    EV = 40
+    res = carrier == "res"
+    mkf = "mk" if res else "mo"
+    fail = (lambda v: "Err(%s)" % v) if res else (lambda v: "None")
+    if is_async:
+        assert res
+        b0 = ("ready(mk(o00, p0)) ~=> move |v: u8| ready(mk(o01, v ^ p1)) ~<= move |e: u8| { ev(%d); ready(mk(true, e ^ 7)) }" % EV)
+        b1 = "ready(mk(o10, q0))"
+    else:
+        rec = {"or_else": ("~<= move |e: u8| { ev(%d); mk(true, e ^ 7) }" % EV) if res else ("~<= move || { ev(%d); mo(true, 7) }" % EV),
+               "or": "~<| lv(%d, %s(true, 9))" % (EV, mkf),
+               "then": "~-> move |r: %s| { ev(%d); r }" % ("Result<u8, u8>" if res else "Option<u8>", EV)}[shape[1]]
+        b0 = "%s(o00, p0) ~=> move |v: u8| %s(o01, v ^ p1) %s" % (mkf, mkf, rec)
+        b1 = "%s(o10, q0)" % mkf
+    two = shape[0] == "two"
+    text = "%s! {\n        %s%s\n    }" % (macro, b0, (",\n        " + b1) if two else "")
+    msg = lambda t: "\"C05[%s]: %s\"" % (pid, t)
+    L = ["names_off();" if is_spawn and not is_async else "", "let o00 = b(); let o01 = b(); let o10 = b(); let p0 = u(); let p1 = u(); let q0 = u();"]
+    if is_async:
+        L.append("let mut fut = %s;" % text)
+        L.append("let (r, polls, lost) = drive(&mut fut, 4);")
+        L.append("vassert!(r.is_some(), %s);" % msg("completes"))
+        L.append("let r = r.unwrap();")
+    else:
+        L.append("let r = %s;" % text)
+    okv = "(p0 ^ p1, q0)" if two else "p0 ^ p1"
+    wrap = "Ok(%s)" % okv if res else "Some(%s)" % okv
+    if two:
+        if is_async:
+            L.append("if !o00 && !o10 { vassert!(r == Err(p0) || r == Err(q0), %s); } else if !o00 { vassert!(r == Err(p0), %s); } else if !o10 { vassert!(r == Err(q0), %s); }" % (msg("first failing step"), msg("first failing step"), msg("first failing step")))
+            L.append("if o00 && o10 { vassert!(r == if !o01 { %s } else { %s }, %s); }" % (fail("p0 ^ p1"), wrap, msg("a failure in a step with a single active branch is returned unchanged (a later error-side step does not recover it)")))
+        else:
+            L.append("vassert!(r == if !o00 { %s } else if !o10 { %s } else if !o01 { %s } else { %s }, %s);" % (fail("p0"), fail("q0"), fail("p0 ^ p1"), wrap, msg("the first failure is returned unchanged, also when it happens in a step with a single active branch that a later error-side step could recover")))
+    else:
+        L.append("vassert!(r == if !o00 { %s } else if !o01 { %s } else { %s }, %s);" % (fail("p0"), fail("p0 ^ p1"), wrap, msg("single-branch try macro: the first failing step's failure is returned unchanged")))
+    # (`~<| expr`: the operand is an ordinary eager expression of its step - evaluated exactly when the step is reached, like the `~->` callback)
+    if not (not is_async and shape[1] in ("then", "or")):
+        L.append("vassert!(cnt(%d) == 0, %s);" % (EV, msg("an error-side action of a later step never runs: a step is reached only with a success")))
+    else:
+        L.append("vassert!(cnt(%d) == (o00 && o01%s) as u8, %s);" % (EV, " && o10" if two else "", msg("the step after a failed step does not run")))
+    L.append("vcover!(o00 && %s!o01, \"failure in the step with a single active branch\");" % ("o10 && " if two else ""))
+    L.append("vcover!(o00 && %so01, \"all succeed\");" % ("o10 && " if two else ""))
+    return Program(pid, text, "    " + "\n    ".join(l for l in L if l), desc=dict(macro=macro, shape=list(shape), carrier=carrier, symbolic=["ok flags", "payloads"]),
+                   group="recover/" + macro, role=dict(kind=macro, shape="single-active-non-final"), unwind=64 if not is_async else 12, solo=is_async, weight=2)
+
+
 def generate(tier, seed):
     return pack("c05", programs(tier, seed), 6 if tier == "quick" else 8)
 
@@ -208,6 +259,15 @@ def programs(tier, seed):
     for prof, gates, heavy in sprofs:
         i += 1
         hs.append(gen_async("p%04d" % i, "try_join_async_spawn", prof, gates, seed, i, heavy))
+    i = 800
+    for macro in ("try_join", "try_join_spawn", "try_join_async"):
+        for n_ in ("two", "one"):
+            for rec in (("or_else", "or", "then") if macro != "try_join_async" else ("or_else",)):
+                for carrier in (("res", "opt") if macro == "try_join" else ("res",)):
+                    i += 1
+                    if tier == "quick" and macro != "try_join" and (i + seed) % 2:
+                        continue
+                    hs.append(gen_recover("p%04d" % i, macro, (n_, rec), carrier))
     return hs
 
 
